@@ -271,3 +271,15 @@ w("C20", "polars validate returns the subsample", BL + "container.py", "        
 w("C20", "head and tail swapped in the subsample call", BP + "container.py", "sample = self.subsample(check_obj, head, tail, sample, random_state)", "sample = self.subsample(check_obj, tail, head, sample, random_state)")
 
 W[:] = [x for x in W if x["kind"] != "skip"]
+
+# ---- definite assignment (C06.R6, C10.R8, C12.R10, C13.R10) ------------------------------------------------------------
+w("C06", "check_dtype: default of `msg` dropped (unbound when dtype is None)", BP + "array.py",
+  "        passed = True\n        failure_cases = None\n        msg = None\n\n        if schema.dtype is not None:\n            dtype_check_results = schema.dtype.check(",
+  "        passed = True\n        failure_cases = None\n\n        if schema.dtype is not None:\n            dtype_check_results = schema.dtype.check(")
+w("C12", "_serialize_component_stats: serialized_checks only assigned when checks are present", "pandera/io/pandas_io.py",
+  "    serialized_checks = None\n    if component_stats[\"checks\"] is not None:", "    if component_stats[\"checks\"] is not None:")
+w("C10", "String coercion helper: reverter only bound on the pyspark branch", "pandera/engines/pandas_engine.py",
+  "            reverter = None\n            if type(obj).__module__.startswith(\"pyspark.pandas\"):", "            if type(obj).__module__.startswith(\"pyspark.pandas\"):")
+w("C06", "twin: defaults of check_dtype moved into an else branch", BP + "array.py",
+  "        passed = True\n        failure_cases = None\n        msg = None\n\n        if schema.dtype is not None:\n            dtype_check_results = schema.dtype.check(",
+  "        passed = True\n        failure_cases = None\n        if schema.dtype is None:\n            msg = None\n        else:\n            msg = None\n\n        if schema.dtype is not None:\n            dtype_check_results = schema.dtype.check(", "twin")
